@@ -240,15 +240,28 @@ def _feeder(ctx, loader, nz, rule='C10.3'):
             isinstance(n.ast.value, ast.Tuple) and
             len(n.ast.value.elts) == 2]
     ctx.require(rets, 'return (placed, restored) of restore_placement')
-    names = set(N.txt(r.ast.value.elts[1]) for r in rets)
-    ctx.ob(rule, func, rets[0], len(names) == 1,
-           'one list of restored instances is returned on every exit: %s' %
-           sorted(names), construct='restored list')
-    lst = sorted(names)[0]
     places = [(n, c) for n, c in K.nodes_calling(
         graph, lambda c: K.is_meth(c, 'restore', 'put') and c.args and
         not (K.recv_text(c) or '').endswith('backend'))]
     ctx.require(places, 'placements in restore_placement')
+
+    def empty_display(expr):
+        return (isinstance(expr, (ast.List, ast.Tuple)) and
+                not expr.elts) or (
+                    isinstance(expr, ast.Call) and
+                    K.callee_text(expr) == 'list' and not expr.args)
+    # an exit taken before anything was put back may return a fresh empty
+    # list; every exit a placement can reach returns the one collected list
+    early = [r for r in rets if empty_display(r.ast.value.elts[1]) and
+             not any(K.find_path(n, [r], follow_exc=False)
+                     for n, _c in places)]
+    names = set(N.txt(r.ast.value.elts[1]) for r in rets if r not in early)
+    ctx.ob(rule, func, rets[0], len(names) == 1,
+           'one list of restored instances is returned on every exit a '
+           'placement can reach: %s' % sorted(names),
+           construct='restored list')
+    ctx.require(names, 'restored list of restore_placement')
+    lst = sorted(names)[0]
     for node, call in places:
         loop = K.enclosing_for(graph, node)
         ctx.require(loop is not None, 'loop over the recorded instances')
